@@ -40,7 +40,7 @@ STATUS = {'offline': 0, 'away': 1, 'online': 2}
 
 
 def cases(tier: str, seed: int) -> list[dict]:
-    n = 1500 if tier == 'quick' else 15000
+    n = 1500 if tier == 'quick' else 120000
     return [{'seed': seed, 'n': i} for i in range(n)]
 
 
